@@ -48,7 +48,13 @@ TIME_BUDGET = {"quick": 60, "thorough": 900}
 TRUSTED = ["IEEE-754: sums and products of the small dyadic inputs used here are exact, so the Rat model and the "
            "float implementation compute the same numbers",
            "CPython zip / itertools.repeat / isinstance(_, Sequence) (modelled by SV.upTo and zip3With in "
-           "Core/Penalty.lean, exercised by every line)"]
+           "Core/Penalty.lean, exercised by every line)",
+           "translator tie: the rendering rules stated in the docstrings of harness/py2lean_c01.py (expressions, statements, the paragraph `C19 wrapper "
+           "shape`) and harness/props/c19_translate.py (the closure is one definition; self.fbty_fct / delta / dist_fct / fbl_fct / alpha and func are "
+           "parameters typed by a table; numbers are one scalar type; a call of func is recorded in the call log; `number or vector` and `repeat(c)` are "
+           "both Penalty.SV; `if not _is_vector(v): v = repeat(v)` re-types v; an SV operand of zip is cut to the length of the finite operands; "
+           "individual.fitness.weights = weights individual) and the prelude Core/GenPreludeC01.lean (zip3). PROPERTY-LEVEL QUANTITIES ONLY: "
+           "functools.wraps, the closure cell mechanics, __init__'s wrapping of delta, and iterator state are not rendered"]
 ASSUMPTIONS = ["distances and alpha are non-negative finite numbers; constants, weights and fitness values are finite "
                "numbers (no NaN/inf); the distance function returns a number or a vector (a Sequence or a numpy array)",
                "a zero weight is treated by the code as +1; the statement names no worse direction for it, so the "
@@ -71,7 +77,31 @@ EXPLANATION = ("Theorems C19.* are proved for every linearly ordered ring, every
                "depends on the world of fitness classes only through the weights the individual's OWN class resolves to (C01's FitClass model); the "
                "family streams test that the implementation has no other per-class input (a value cached on a fitness class and found through "
                "inheritance, seeded change C19-r7m2, is a disagreement and an oracle failure). C19.feasible_passthrough_kwargs states that the whole "
-               "keyword map arrives; the keyword-name stream tests it for every identifier the wrappers use themselves.")
+               "keyword map arrives; the keyword-name stream tests it for every identifier the wrappers use themselves. "
+               "Translator tie: on every run the two wrapper bodies of deap/tools/constraint.py are re-read and regenerated as Gen19.DeltaPenalty_wrapper / "
+               "Gen19.ClosestValidPenalty_wrapper (harness/props/c19_translate.py); the committed theorems of lean/DeapModel/GenEq/C19.lean.tmpl (each "
+               "generated definition = Penalty.deltaPenalty / closestValidPenalty: fitness AND call log, at every scalar type) are re-checked by the kernel.")
+
+
+def translate(repo):
+    """translator tie (lib._translated_obligations): the two wrapper bodies regenerated from `repo`'s current
+    deap/tools/constraint.py + the committed theorems of lean/DeapModel/GenEq/C19.lean.tmpl"""
+    from props import c19_translate
+    import json
+    import os
+    import lib
+    tr = c19_translate.translate(repo)
+    try:
+        os.makedirs(os.path.join(lib.OUT, "evidence"), exist_ok=True)
+        with open(os.path.join(lib.OUT, "evidence", "C19.translated.json"), "w") as fh:
+            json.dump({"definitions": len(tr["definitions"]), "theorems": len(tr["theorems"]),
+                       "refused": len(tr["refused"]), "problems": tr["problems"],
+                       "functions": [dict(name=n, status=st, detail=d) for n, st, d in tr["table"]],
+                       "theorem_names": tr["theorems"]}, fh, indent=1)
+            fh.write("\n")
+    except OSError:
+        pass
+    return tr
 
 
 def frn(v):
